@@ -15,6 +15,38 @@ RET_POLY = ("core::str::parse", "std::iter::Iterator::sum", "std::iter::Iterator
             "std::convert::TryFrom::try_from", "std::str::FromStr::from_str")
 
 
+def last_generic_arg(ty):
+    """last top-level generic argument of a printed type, lifetimes erased"""
+    ty = re.sub(r"'\w+\s*", "", ty or "")
+    i = ty.find("<")
+    if i < 0 or not ty.endswith(">"):
+        return None
+    depth = 0
+    parts, cur = [], ""
+    for ch in ty[i + 1:-1]:
+        if ch in "<([":
+            depth += 1
+        elif ch in ">)]":
+            depth -= 1
+        if ch == "," and depth == 0:
+            parts.append(cur.strip()); cur = ""
+        else:
+            cur += ch
+    parts.append(cur.strip())
+    return parts[-1] if parts else None
+
+
+def try_same_error_type(n):
+    """`x?` on a Result whose error type is the enclosing function's error type: From::from is the identity"""
+    for c in F.walk(n):
+        if c.get("k") == "Call" and "fn" in c and c["fn"]["path"].endswith("FromResidual::from_residual"):
+            ta = c["fn"].get("targs") or []
+            if len(ta) >= 2:
+                a_, b_ = last_generic_arg(ta[0]), last_generic_arg(ta[1])
+                return a_ is not None and a_ == b_
+    return False
+
+
 class Undecidable(Exception):
     def __init__(self, node, msg):
         self.node = node
@@ -725,7 +757,8 @@ class Sym:
                     if is_opt:
                         out.append((s2, (RET, NONE)))
                     else:
-                        out.append((s2, (RET, err(("from", mk_payload(v, "Err", "0"))))))
+                        e_ = mk_payload(v, "Err", "0")
+                        out.append((s2, (RET, err(e_ if try_same_error_type(n) else ("from", e_)))))
         return out
 
     def ev_Block(self, n, st):
